@@ -52,6 +52,10 @@ int main(int argc, char** argv)
         if (seq) {
             int n = g.range(1, cap);
             vh::Trip t = gen_sys(g, n, exact_start);
+            // half of the extra cases: the whole system scaled by 2^-60 (diagonal around 1e-18): the sweep is invariant under
+            // a common scaling of A and b, and a power of two makes that exact
+            bool tiny = presort && (it0 % 2 == 0); double sc = tiny ? std::ldexp(1.0, -60) : 1.0;
+            if (tiny) for (auto& v : t.v) v *= sc;
             for (int kind = 0; kind < 3; kind++) {
                 CSRMatrix* A = vh::make_csr(t);
                 if (presort) { (void)g.coin(); A->sort(); if (kind > 0) A->move_diag(); }
@@ -60,9 +64,9 @@ int main(int argc, char** argv)
                 std::vector<double> x0(n), b0(n);
                 for (int i = 0; i < n; i++) x0[i] = exact_start ? g.range(-4, 4) : (g.unit() - 0.5) * 8;
                 if (exact_start) { for (int i = 0; i < n; i++) b0[i] = 0; for (size_t k = 0; k < t.r.size(); k++) b0[t.r[k]] += t.v[k] * x0[t.c[k]]; }
-                else for (int i = 0; i < n; i++) b0[i] = (g.unit() - 0.5) * 8;
+                else for (int i = 0; i < n; i++) b0[i] = (g.unit() - 0.5) * 8 * sc;
                 for (int i = 0; i < n; i++) { x.values[i] = x0[i]; b.values[i] = b0[i]; }
-                char buf[64]; snprintf(buf, 64, "seq/%s", KN[kind]); E.about(buf);
+                char buf[64]; snprintf(buf, 64, "seq/%s%s", KN[kind], tiny ? "/tiny" : ""); E.about(buf);
                 if (kind == 0) jacobi(A, b, x, tmp, sweeps, omega); else if (kind == 1) sor(A, b, x, tmp, sweeps, omega); else ssor(A, b, x, tmp, sweeps, omega);
                 if (E.want()) {
                     vh::Case c("C11", "seq"); c.i(kind).i(n).i(sweeps).d(omega).i(exact_start);
